@@ -254,7 +254,7 @@ class C13(Prop):
         if line == "nohdr":
             return None
         _, kv = C.fields(line)
-        return (kv.get("raw"), kv.get("sec"), kv.get("items"), kv.get("addr"))
+        return (kv.get("raw"), kv.get("sec"), kv.get("items"), kv.get("addr"), kv.get("braw"), kv.get("baddr"))
 
     def relation(self, ops, impl):
         out = []
@@ -271,11 +271,11 @@ class C13(Prop):
             sec = hdr[16 + size:] if fam != 0 else b""
             wf = not any(i.startswith("!") for i in G.tlv_walk_oracle(sec))
             problems = []
-            if kv.get("raw") != "eq" or kv.get("sec") != "eq":
+            if kv.get("raw") != "eq" or kv.get("sec") != "eq" or kv.get("braw") != "eq":
                 problems.append("raw re-encoding")
             if wf and kv.get("items") != "eq":
                 problems.append("re-encoding from decoded items")
-            if fam != 0 and kv.get("addr") != "eq":
+            if fam != 0 and (kv.get("addr") != "eq" or (wf and kv.get("baddr") != "eq")):
                 problems.append("rebuilding from the decoded address value")
             if problems:
                 out.append(Violation("relation", op, il[:400], None, "does not reproduce the header: " + ", ".join(problems)))
